@@ -9,6 +9,7 @@
 //!    when it fails every reported path is located at the position where the value is used and, if
 //!    it came through an anchor, also where it was defined; every failing document of a stream is
 //!    reported.
+//!    Also: the validating iterators under a per-document budget, and a repeated key under the last-wins policy.
 use crate::coq;
 use crate::ctx::{Ctx, Rng};
 use crate::util;
